@@ -28,7 +28,7 @@ RULE = ("cases = (initial hosts-file content, backup present or not, host map / 
         "lines, other ports' markers, stale own markers (also last / preceded by blank lines), non-ASCII white "
         "space, undecodable bytes, 1-200 lines; maps of 0-50 hosts; histories of <= 30 updates followed by restore; "
         "every crash point k of every single-instance case; a refused operation at every index of small cases; "
-        "segment-level and random (thorough: exhaustive) interleavings of two instances; a case is non-trivial "
+        "segment-level and random (thorough: exhaustive) interleavings of two instances; complete helper sessions through the real firewall.main() (fake packet-filter method and stdin: ROUTES, NSLIST, PORTS, GO, HOST lines, then EOF / read error / bad command) with the IPv4 and/or IPv6 teardown raising; a case is non-trivial "
         "when a line was filtered, a backup made, a fault or crash injected, or two instances overlapped; "
         "distinct = distinct canonical case description")
 MANIFEST = dict(
@@ -909,6 +909,131 @@ def inter_case(ctx, content, pre, specs, sched, label='inter'):
     return case
 
 
+# ------------------------------------------------------------------ complete helper sessions (firewall.main)
+
+class _FakeMethod:
+    """Stands in for the packet-filter backend (the OS boundary of firewall.main)."""
+    name = 'fake'
+
+    def __init__(self, fail, exc, setup_fails):
+        self.fail = set(fail)
+        self.exc = exc
+        self.setup_fails = setup_fails
+        self.calls = []
+
+    def is_supported(self):
+        return True
+
+    def setup_firewall(self, port, dnsport, nslist, family, subnets, udp, user, group, tmark):
+        self.calls.append(('setup', family))
+        if self.setup_fails:
+            raise self._exc('packet filter set-up failed')
+
+    def wait_for_firewall_ready(self, pid):
+        raise NotImplementedError()
+
+    def firewall_command(self, line):
+        return False
+
+    def _exc(self, msg):
+        import sshuttle.helpers as helpers
+        return {'fatal': helpers.Fatal, 'oserror': OSError, 'runtime': RuntimeError}[self.exc](msg)
+
+    def restore_firewall(self, port, family, udp, user, group):
+        self.calls.append(('restore', family))
+        if family in self.fail:
+            raise self._exc('packet filter command returned 1')
+
+
+class _Stdin:
+    """The helper's stdin: the given lines, then EOF or a read error."""
+
+    def __init__(self, data, then_error):
+        import io
+        self.f = io.BytesIO(data)
+        self.then_error = then_error
+
+    def readline(self, n=-1):
+        r = self.f.readline(n)
+        if not r and self.then_error:
+            raise IOError(errno.ECONNRESET, 'parent went away')
+        return r
+
+
+def helper_case(ctx, content, hosts, with_v4, with_v6, fail, end='eof', exc='fatal', setup_fails=False):
+    """One complete helper session through the real firewall.main() on the sandbox hosts file.
+    hosts: list of (name, ip) HOST lines; fail: families ('4', '6') whose teardown raises;
+    end: 'eof' | 'ioerror' | 'bad-command'."""
+    import io
+    import socket
+    case = Case('helper')
+    desc = dict(stream='helper', content=opt(content), hosts=[list(h) for h in hosts], v4=with_v4, v6=with_v6,
+                fail=sorted(fail), end=end, exc=exc, setup_fails=setup_fails)
+    case.desc = desc
+    p6, p4 = (12300 if with_v6 else 0), 12299
+    port = p6 or p4
+    fams = {'4': int(socket.AF_INET), '6': int(socket.AF_INET6)}
+    lines = ['ROUTES']
+    if with_v4:
+        lines.append('%d,24,0,10.9.0.0,0,0' % fams['4'])
+    if with_v6:
+        lines.append('%d,64,0,2404:6800:4004:80c::,0,0' % fams['6'])
+    lines += ['NSLIST', 'PORTS %d,%d,0,0' % (p6, p4), 'GO 0 - - 0x01 %d' % os.getpid()]
+    lines += ['HOST %s,%s' % (n, i) for n, i in hosts]
+    if end == 'bad-command':
+        lines.append('BOGUS command')
+    data = ('\n'.join(lines) + '\n').encode('ASCII')
+    method = _FakeMethod([fams[f] for f in fail], exc, setup_fails)
+    with Sandbox(snapshots=False) as sb:
+        fw = sb.fw
+        import sshuttle.helpers as helpers
+        setup_fs(sb, content, None, 0o644)
+        sb.default = Inst('a', port)
+        saved = dict(setup_daemon=fw.setup_daemon, get_method=fw.get_method,
+                     flush=fw.flush_systemd_dns_cache, pid=fw.sshuttle_pid, prefix=helpers.logprefix)
+        stdout = io.BytesIO()
+        fw.setup_daemon = lambda: (_Stdin(data, end == 'ioerror'), stdout)
+        fw.get_method = lambda name: method
+        fw.flush_systemd_dns_cache = lambda: None
+        ended = 'returned'
+        try:
+            try:
+                fw.main('fake', False)
+            except Exception as e:  # noqa
+                ended = type(e).__name__
+        finally:
+            fw.setup_daemon = saved['setup_daemon']
+            fw.get_method = saved['get_method']
+            fw.flush_systemd_dns_cache = saved['flush']
+            fw.sshuttle_pid = saved['pid']
+            helpers.logprefix = saved['prefix']
+        after = sb.raw(sb.hosts)
+        renames = len([o for o in sb.log if o.startswith(('rename', 'move')) and '-> ok' in o])
+    ctx.hist('helper:end=%s,fail=%s' % (end, ''.join(sorted(fail)) or '-'))
+    published = bool(hosts) and not setup_fails
+    tail = '-after-teardown-error' if fail else ''
+    if published:
+        base = [l for l in py_lines(content) if not own(port, l)]
+        got = py_lines(after)
+        left = [l for l in got if own(port, l)]
+        if renames < len(hosts):
+            ctx.corr_break('helper', case=desc, impl='%d rewrites' % renames, model='>= %d' % len(hosts),
+                           note='the session never published its HOST lines')
+        if left:
+            violation(ctx, 'C14:session-end:marked-lines-remain' + tail, desc,
+                      'when the helper ends none of its marked lines is left in the hosts file',
+                      dict(left=left, main_ended=ended, method_calls=[c[0] + str(c[1]) for c in method.calls]),
+                      'helper session through firewall.main(); packet-filter teardown raising for %s'
+                      % (sorted(fail) or 'no family'), kind='history')
+        elif got != trim(base):
+            violation(ctx, 'C14:session-end:other-lines-changed' + tail, desc, dict(lines=trim(base)),
+                      dict(lines=got, main_ended=ended), kind='history')
+    elif after != content:
+        violation(ctx, 'C14:session-end:touched-file-without-own-hosts', desc, 'file untouched',
+                  dict(after=b2s(after), main_ended=ended), kind='history')
+    return case
+
+
 # ------------------------------------------------------------------ library streams
 
 def lib_cases(ctx):
@@ -1043,6 +1168,28 @@ def gen_cases(ctx):
                 state[p][gen_name(rng)] = gen_ip(rng)
                 events.append((p, 'w', dict(state[p])))
         cases.append(serial_case(ctx, content, events))
+    # complete helper sessions through firewall.main(): clean and failing packet-filter teardown
+    base_c = b'127.0.0.1 localhost\n# kept by the admin\n' + ('%-30s %s\n' % ('10.7.0.9 other', MARK % 12999)).encode()
+    two = [('alpha', '10.9.0.1'), ('beta', '10.9.0.2')]
+    for with_v4, with_v6 in ((True, False), (False, True), (True, True)):
+        fams = ([''] + (['4'] if with_v4 else []) + (['6'] if with_v6 else []) + (['46'] if with_v4 and with_v6 else []))
+        for f in fams:
+            for end in ('eof', 'ioerror', 'bad-command'):
+                cases.append(helper_case(ctx, base_c, two, with_v4, with_v6, set(f), end=end,
+                                         exc=rng.choice(['fatal', 'oserror', 'runtime'])))
+    cases.append(helper_case(ctx, base_c, [], True, True, {'4', '6'}))
+    cases.append(helper_case(ctx, base_c, two, True, False, set(), setup_fails=True))
+    for _ in range(ctx.scale(10, 200)):
+        with_v6 = rng.random() < 0.6
+        with_v4 = rng.random() < 0.7 or not with_v6
+        port = 12300 if with_v6 else 12299
+        kind, content = gen_content(rng, port, rng.choice(['missing', 'plain', 'crlf', 'nonl', 'stale-last', 'blank']))
+        pool = [gen_name(rng) for _ in range(rng.choice([1, 2, 4]))]
+        hosts = [(rng.choice(pool), gen_ip(rng)) for _ in range(rng.choice([0, 1, 2, 5, 12]))]
+        fail = {f for f in '46' if rng.random() < 0.5 and ((f == '4' and with_v4) or (f == '6' and with_v6))}
+        cases.append(helper_case(ctx, content, hosts, with_v4, with_v6, fail,
+                                 end=rng.choice(['eof', 'eof', 'ioerror', 'bad-command']),
+                                 exc=rng.choice(['fatal', 'oserror', 'runtime'])))
     # two instances overlapping: the two designated races first
     for w in (WITNESS_LOST, WITNESS_RESURRECT):
         cases.append(inter_case(ctx, w['content'], w['pre'], w['specs'], w['sched'], label='inter-witness'))
@@ -1128,7 +1275,7 @@ def run(ctx):
     for c in cases:
         ctx.count(max(1, len(c.ins)))
         ctx.hist('case:' + c.kind)
-        ctx.mark((c.kind, c.ins), c.nontrivial)
+        ctx.mark((c.kind, c.ins or repr(c.desc)), c.nontrivial)
     shown = set()
     for c in cases:
         if c.kind not in shown and c.kind != 'lib':
@@ -1167,6 +1314,10 @@ def replay(ctx, rep):
     elif st == 'inter':
         inter_case(ctx, _unopt(case['content']), [(p, k, _hm(h)) for p, k, h in case['pre']],
                    [(t, k, _hm(h), p) for t, k, h, p in case['specs']], case['sched'])
+    elif st == 'helper':
+        helper_case(ctx, _unopt(case['content']), [tuple(h) for h in case['hosts']], case['v4'], case['v6'],
+                    set(case['fail']), end=case['end'], exc=case.get('exc', 'fatal'),
+                    setup_fails=case.get('setup_fails', False))
     else:
         return False, 'unknown replay stream %r' % st
     new = ctx.violations[n0:]
